@@ -57,6 +57,9 @@ Definition ev_cids (x : ev) : list Z :=
   | _ => []
   end.
 
+(** every client order id mentioned in the case, once *)
+Definition cids_of (xs : list ev) : list Z := nodup Z.eq_dec (flat_map ev_cids xs).
+
 (* ---- model = implementation -------------------------------------------------------------------- *)
 
 Fixpoint bals_eq (e : engine) (a : Z) (l : list (option obal)) : bool :=
@@ -90,7 +93,7 @@ Definition corr_b (c : case) : bool :=
       match os with
       | [] => match xs with [] => true | _ => false end
       | o :: _ =>
-          corr_run (flat_map ev_cids xs) (length (ob_bal o)) (length (ob_inst o)) engine0 xs os
+          corr_run (cids_of xs) (length (ob_bal o)) (length (ob_inst o)) engine0 xs os
       end
   | C9Panic => false
   end.
@@ -218,7 +221,7 @@ Definition episodes_ok (U : list Z) (xs : list ev) (os : list obs) : bool :=
 Definition prop_b (c : case) : bool :=
   match c with
   | C9 xs os =>
-      prop_run (flat_map ev_cids xs) [] xs os && episodes_ok (flat_map ev_cids xs) xs os
+      prop_run (cids_of xs) [] xs os && episodes_ok (cids_of xs) xs os
   | C9Panic => false
   end.
 
